@@ -1,7 +1,5 @@
 """C24 - Cyclic terms are processed correctly and always terminate."""
-import itertools
 import json
-import random
 
 from lib import common
 from lib.common import Report, run_jobs, generate
@@ -284,16 +282,19 @@ def graph_text(g, order=None):
     return ", ".join(equations(g, order or range(1, len(g) + 1))) or "true"
 
 
-def orders_for(n, tier, rnd):
+def orders_for(v, tier):
+    """equation orders in which a graph is built. quick: one of forward/backward, alternating; thorough: the labelled
+    graphs with <= 3 nodes are all enumerated, which already gives every order up to the names of the variables
+    (forward only); sampled 4-node graphs forward and backward"""
+    n = v["n"]
     base = list(range(1, n + 1))
     if n == 1:
         return [base]
     if tier == "quick":
-        return [base, base[::-1]]
-    perms = [list(p) for p in itertools.permutations(base)]
+        return [base if v["code"] % 2 == 0 else base[::-1]]
     if n <= 3:
-        return perms
-    return [base, base[::-1], rnd.choice(perms[1:-1])]
+        return [base]
+    return [base, base[::-1]]
 
 
 def execute(cases, skip=None, group=8, workers=8):
@@ -414,19 +415,19 @@ def signatures(v, order, culprit, fl):
 
 def run(tier):
     rep = Report(PROP, tier, META["level"])
-    rnd = random.Random(common.seed())
     rep.rule = ("quick: every term graph with 1..3 nodes over the node shapes {variable, chain Xi=Xj, a, b, f(Xj), g(Xj,Xk), "
-                "'.'(Xj,Xk), \"ab\"||Xj} up to isomorphism, each built in 2 equation orders; thorough: every labelled graph with "
-                "1..3 nodes in all equation orders plus a stride sample of the 4-node graphs in 3 orders; per graph the battery "
-                "covers every node and every pair of nodes. distinct = (node kinds multiset, cyclic?, has variables?, operation)")
+                "'.'(Xj,Xk), \"ab\"||Xj} up to isomorphism (4 791 graphs), equations in forward or backward order; thorough: every "
+                "labelled graph with 1..3 nodes (27 297, i.e. every equation order) plus a stride sample of 12 000 of the 4.9 M "
+                "4-node graphs in 2 orders; per graph the battery covers every node and every pair of nodes. "
+                "distinct = (node kinds multiset, cyclic?, has variables?, operation)")
     res, vecs = generate("MC_C24", "MC_C24_%s.cfg" % tier, workers=8 if tier == "quick" else 12, timeout=7200,
-                         key=lambda v: "%d-%09d" % (v["n"], v["code"]))
+                         key=lambda v: "%d-%09d" % (v["n"], v["code"]), env_extra={"C24_SEED": common.seed()})
     rep.add_tlc(res)
     if not vecs:
         raise common.ToolError("no vectors generated")
     cases = []
     for v in vecs:
-        for order in orders_for(v["n"], tier, rnd):
+        for order in orders_for(v, tier):
             cases.append((v, order))
     results = execute(cases)
     fails0 = {}
@@ -459,7 +460,7 @@ def run(tier):
         rep.sample({"graph": graph_text(v["g"]), "acyclic": [u["ac"] for u in v["un"]], "eq": v["eq"],
                     "compare": v["cmp"][0]["c"], "unify_ok": [u["ok"] for u in v["un2"]]})
     rep.traces = len(cases)
-    rep.exhaustive = True
+    rep.exhaustive = (tier == "quick")      # thorough adds a sample of the 4-node graphs
     rep.extra["graphs"] = len(vecs)
     rep.extra["cyclic_graphs"] = sum(1 for v in vecs if any(not u["ac"] for u in v["un"]))
     rep.extra["graphs_with_partial_strings"] = sum(1 for v in vecs if any(nd["k"] == "s" for nd in v["g"]))
